@@ -206,7 +206,20 @@ pub async fn run_writer(
     // when present, the end action waits until the local reader has received everything it
     // expects (uTP has no half-close: a FIN ends both directions)
     gate: Option<tokio::sync::oneshot::Receiver<()>>,
+    // when present, the network is cut at the instant a flush/shutdown returns Ok
+    cut_on_ok: Option<Arc<crate::sim::Net>>,
 ) -> WriterOutcome {
+    let cut = |what: &str| {
+        if let Some(net) = &cut_on_ok {
+            let now = net.clock.now_us();
+            net.with_plan(|p| {
+                if p.cut_at_time.is_none() {
+                    p.cut_at_time = Some(now);
+                }
+            });
+            net.log.note(format!("network cut at the return of {what}"));
+        }
+    };
     let clock = ctx.log.clock.clone();
     let mut out = WriterOutcome {
         accepted: 0,
@@ -249,6 +262,7 @@ pub async fn run_writer(
                 Ok(()) => {
                     out.flushes_ok += 1;
                     out.flushed_upto = upto;
+                    cut("flush");
                 }
                 Err(e) => {
                     out.error = Some(e.to_string());
@@ -272,6 +286,7 @@ pub async fn run_writer(
                     Ok(()) => {
                         out.shutdown_ok = Some(true);
                         out.flushed_upto = upto;
+                        cut("shutdown");
                     }
                     Err(e) => {
                         out.shutdown_ok = Some(false);
@@ -286,6 +301,7 @@ pub async fn run_writer(
                     Ok(()) => {
                         out.flushes_ok += 1;
                         out.flushed_upto = upto;
+                        cut("flush");
                     }
                     Err(e) => out.error = Some(e.to_string()),
                 }
